@@ -4,7 +4,7 @@
    calls and their prefixes).  The unbounded soundness claim is carried, in this version, by the
    exhaustive-within-bound correspondence (./check C02 judges rattr's own IR with the Coq checker
    `phantoms`); what is proved for all inputs is below. *)
-From RattrV Require Import Base Str PyAst Naming Spell Context FuncAn Occurs FaCheck FaSpecCheck FaFacts FaMono C01Proofs C02Proofs.
+From RattrV Require Import Base Str PyAst Naming Spell Context FuncAn Occurs FaCheck FaSpecCheck FaFacts FaMono C01Proofs C02Proofs C01Complete C02Sound.
 Open Scope string_scope.
 Open Scope list_scope.
 
@@ -36,3 +36,16 @@ Proof. exact sample_no_phantoms. Qed.
 Example C02_receiver_prefix_rule :
   receiver_prefixes "a.b.c.m()" = [("a.b", "a"); ("a.b.c", "a")] /\ receiver_prefixes "f()" = [] /\ receiver_prefixes "a.m()" = [].
 Proof. exact receiver_prefix_example. Qed.
+
+(* PROVED on the call-free load fragment (proofs/C01Complete.v), any depth: whatever the visit adds to the gets is
+   an access `occs false` lists for the expression, and sets, dels and calls are untouched - no phantom name, no
+   wrong kind *)
+Theorem C02_call_free_loads_report_nothing_else :
+  forall mexists modulename n, CF n -> forall s,
+    (forall x, rmem x (v_gets (snd (visit mexists modulename n s))) = true ->
+               rmem x (v_gets s) = true \/ In (AGet, fst x) (occs false n))
+    /\ v_sets (snd (visit mexists modulename n s)) = v_sets s
+    /\ v_dels (snd (visit mexists modulename n s)) = v_dels s
+    /\ v_calls (snd (visit mexists modulename n s)) = v_calls s.
+Proof. intros mexists modulename n Hcf s. exact (call_free_loads_report_nothing_else mexists modulename n Hcf s). Qed.
+Print Assumptions C02_call_free_loads_report_nothing_else.
